@@ -909,6 +909,12 @@ namespace fixedmath
       }
     //normalize the range to phi/2
     x = detail::tan_range(x);
+    // second quadrant: tan(x) = -tan(phi - x), keeps the series argument within phi/4
+    if( x > fixpidiv2.v )
+      {
+      x = phi.v - x;
+      sign_ = !sign_;
+      }
     
     if( fixed_likely( x != fixpidiv2.v ) )
       {
